@@ -217,3 +217,56 @@ theorem labelRuns_split (acc : List α → Bool) (c : Nat) (rs : List (List α))
       · exact h3 s hs
 
 end Cycles
+
+namespace Cycles
+variable {α : Type}
+
+theorem labelRuns_label_iff (acc : List α → Bool) (c : Nat) (rs : List (List α)) :
+    ∀ s ∈ labelRuns acc c rs, (s.2.isSome ↔ acc s.1 = true) := by
+  induction rs generalizing c with
+  | nil => simp [labelRuns]
+  | cons r rs ih =>
+    intro s hs
+    unfold labelRuns at hs
+    split at hs
+    · rename_i h
+      simp only [List.mem_cons] at hs
+      rcases hs with rfl | hs
+      · simp [h]
+      · exact ih _ s hs
+    · rename_i h
+      simp only [List.mem_cons] at hs
+      rcases hs with rfl | hs
+      · simp [h]
+      · exact ih _ s hs
+
+theorem append_cons_eq_range {a b : List Nat} {k n : Nat} (h : a ++ k :: b = List.range n) :
+    k = a.length := by
+  have h1 : (a ++ k :: b)[a.length]? = some k := by simp
+  rw [h] at h1
+  have hlt : a.length < n := by
+    have := congrArg List.length h
+    simp at this; omega
+  simp [List.getElem?_range hlt] at h1
+  omega
+
+theorem strictInc_iff (l : List Rat) : strictInc l = true ↔ l.Pairwise (· < ·) := by
+  induction l with
+  | nil => simp [strictInc]
+  | cons a t ih =>
+    cases t with
+    | nil => simp [strictInc]
+    | cons b t =>
+      simp only [strictInc, Bool.and_eq_true, decide_eq_true_eq, ih]
+      constructor
+      · rintro ⟨hab, hp⟩
+        refine List.pairwise_cons.mpr ⟨?_, hp⟩
+        intro x hx
+        rcases List.mem_cons.mp hx with rfl | hx
+        · exact hab
+        · have := (List.pairwise_cons.mp hp).1 x hx; grind
+      · intro hp
+        have := List.pairwise_cons.mp hp
+        exact ⟨this.1 b (by simp), this.2⟩
+
+end Cycles
